@@ -1,0 +1,28 @@
+//go:build !verif
+
+package netty
+
+// verification hook points (see verif_on.go); with the verif build tag off
+// verifAt is an empty function that the compiler inlines away.
+type verifPoint int
+
+const (
+	vpWriteEnqueued verifPoint = iota + 1
+	vpWriteAcquired
+	vpSendLoop
+	vpSendBatched
+	vpSendWritten
+	vpSendRecycled
+	vpSendFlushed
+	vpSendReleased
+	vpCloseElected
+	vpClosePoll
+	vpCloseWaited
+	vpCloseTransportClosed
+	vpCloseCancelled
+	vpReadActiveDone
+	vpReadIdleCheck
+	vpWriteIdleCheck
+)
+
+func verifAt(verifPoint, interface{}) {}
